@@ -2,6 +2,7 @@
 
 PM = "frequenz.sdk.microgrid._power_managing"
 FS = "frequenz.sdk.timeseries.formula_engine._formula_steps"
+RS = "frequenz.sdk.timeseries._resampling"
 CSM = "frequenz.sdk.microgrid._power_distributing._component_status"
 BT = f"{CSM}._battery_status_tracker:BatteryStatusTracker"
 
@@ -119,5 +120,24 @@ PROPS = {
                      "not under contract: the select() loop of _run (dispatch of each event to its handler, the staleness test "
                      "before the expiry handlers, sending the notification) and ComponentPoolStatusTracker._update_status; "
                      "freshness BETWEEN events rests on the library timers firing max_data_age after their last reset"],
+    ),
+    "C07": dict(
+        modules=["ts_resampler"],
+        contracts=[f"{RS}:Resampler._calculate_window_end", f"{RS}:Resampler.resample"],
+        lemmas=[],
+        bounded=[dict(kind="contract_search", name="Resampler.resample on the real event loop (scripted timer/helpers)",
+                      target=f"{RS}:Resampler.resample", contract_module="contracts.ts_resampler", budget_s=6,
+                      thorough_budget_s=40)],
+        level="proof",
+        explanation="_calculate_window_end: integer (microsecond) arithmetic proof that the first window end is after now, at "
+                    "most two periods away, on the align_to grid, and that the timer delay is the gap to the grid. "
+                    "resample(): loop invariant over ALL ticks - _window_end = W0 + n*period and every series was asked "
+                    "exactly once per tick for exactly the previous window end - independent of the clock, of the drift the "
+                    "timer reports and of exceptions from sinks.",
+        assumptions=[EXTRACTION, "datetime/timedelta as integer microseconds",
+                     "model: Timer(TriggerAllMissed) yields one item per elapsed period (an arbitrary stream of drifts)",
+                     "structural bound: up to two series in the resampler (all series are handled by one comprehension); "
+                     "the number of ticks is unbounded",
+                     "not under contract: Resampler.__init__ (timer start alignment), add/remove_timeseries"],
     ),
 }
